@@ -58,13 +58,13 @@ def decode(np, D, logits, k, selector=None, lm=None, scale=1.0, bonus=0.0, eos=F
     return dec(arr, model_eos=eos, init_h=init), None
 
 
-def check_c02(np, D, logits, k, pruning):
-    """returns list of (clause, detail). pruning=False -> identity selector"""
+def check_c02(np, D, logits, k, pruning, dec=None):
+    """returns list of (clause, detail). pruning=False -> identity selector; dec: a decoder that has decoded other lines before"""
     C = len(logits[0])
     blank = C - 1
     letters = ALPHABET[:C - 1]
     sel = None if pruning else identity_selector(np)
-    boh, _ = decode(np, D, logits, k, selector=sel)
+    boh, _ = decode(np, D, logits, k, selector=sel, dec=dec)
     bad = []
     hyps = list(boh)
     trs = [h.transcript for h in hyps]
